@@ -8,7 +8,7 @@ Set Warnings "-ambiguous-paths".
 From Coquelicot Require Import Coquelicot.
 From PyLib Require Import PyVal PyBuiltins Ideal.
 From Gen Require Import M_base M_Angle M_Interpolation.
-From Proofs.C12 Require C12_defs C12_main C12_gen.
+From Proofs.C12 Require C12_defs C12_main C12_gen C12_gend.
 From Spec Require Newton.
 From Proofs.C12 Require Import C12_tac C12_nd C12_dup3 C12_ctor3 C12_ctor4 C12_ideal C12_root C12_witness.
 Import ListNotations.
@@ -269,6 +269,34 @@ Proof.
   - intros p Lp Hy x. apply Newton.NF_reproduces; [exact D | subst n; lia | intros j Hj; apply Hy; subst n; lia].
 Qed.
 
+(* derivative() on that object, ANY n >= 3 (three nested generated loops, C12_gend.v): the value returned inside the
+   table IS the derivative of the Newton form NF through all n points (Coquelicot is_derive); n = 2: the slope of
+   the chord; outside the table ValueError *)
+Theorem C12_derivative_any : forall xs ys : list R,
+  List.length ys = List.length xs -> C12_gen.separated xs ->
+  (forall x, (3 <= List.length xs)%nat ->
+     C12_gen.nthR xs 0 <= x -> x <= C12_gen.nthR xs (List.length xs - 1) ->
+     exists d, Interpolation_derivative Rops (C12_gen.built xs ys) (VFloat x) = VFloat d
+               /\ is_derive (Newton.NF (C12_gen.nthR xs) (C12_gen.nthR ys) 0 (List.length xs - 1)) x d) /\
+  (forall x tb, List.length tb = List.length xs -> (3 <= List.length xs)%nat -> x < C12_gen.nthR xs 0 \/ C12_gen.nthR xs (List.length xs - 1) < x ->
+     Interpolation_derivative Rops (C12_gen.tobj xs ys (C12_gen.flist tb)) (VFloat x) = VErr ValueError).
+Proof.
+  intros xs ys L S. split.
+  - intros x Hn Hlo Hhi. apply C12_gend.derivative_any; assumption.
+  - intros x tb Ht Hn Hout. apply C12_gend.derivative_outside; assumption.
+Qed.
+Theorem C12_derivative_two : forall a b c d tb x, a <= x <= b -> b - a <> 0 ->
+  Interpolation_derivative Rops (C12_gen.tobj [a; b] [c; d] tb) (VFloat x) = VFloat ((d - c) / (b - a)).
+Proof. exact C12_gend.derivative_two. Qed.
+
+(* __call__ outside the table (beyond the tolerance of every node): ValueError, ANY n >= 1, any coefficient table *)
+Theorem C12_refused_any : forall (xs ys tbl : list R) x,
+  List.length ys = List.length xs -> List.length tbl = List.length xs -> (0 < List.length xs)%nat ->
+  x < C12_gen.nthR xs 0 \/ C12_gen.nthR xs (List.length xs - 1) < x ->
+  (forall i, (i < List.length xs)%nat -> C12_gen.tol0 <= Rabs (x - C12_gen.nthR xs i)) ->
+  Interpolation___call__ Rops (C12_gen.tobj xs ys (C12_gen.flist tbl)) (VFloat x) = VErr ValueError.
+Proof. intros xs ys tbl x Hy Ht Hn Ho Ha. apply C12_gen.call_outside; assumption. Qed.
+
 (* [ideal, n = 3 only, two-list form only] duplicated abscissae (any pair closer than tol) are refused with ValueError (three points, two-list form) *)
 Theorem C12_duplicates : forall p1 p2 p3 q1 q2 q3,
   Rabs (p1 - p2) < tol0 \/ Rabs (p1 - p3) < tol0 \/ Rabs (p2 - p3) < tol0 ->
@@ -382,6 +410,9 @@ Redirect "C12_newton_diff_any.assumptions" Print Assumptions C12_newton_diff_any
 Redirect "C12_compute_table_any.assumptions" Print Assumptions C12_compute_table_any.
 Redirect "C12_call_any.assumptions" Print Assumptions C12_call_any.
 Redirect "C12_interpolates_any.assumptions" Print Assumptions C12_interpolates_any.
+Redirect "C12_derivative_any.assumptions" Print Assumptions C12_derivative_any.
+Redirect "C12_derivative_two.assumptions" Print Assumptions C12_derivative_two.
+Redirect "C12_refused_any.assumptions" Print Assumptions C12_refused_any.
 Redirect "C12_root_step.assumptions" Print Assumptions C12_root_step.
 Redirect "C12_root_sound.assumptions" Print Assumptions C12_root_sound.
 Redirect "C12_root_witness.assumptions" Print Assumptions C12_root_witness.
